@@ -77,6 +77,7 @@ var isoFatalRe = regexp.MustCompile(`fatal error: (concurrent map[^\n]*)`)
 
 func runIsoRace(c Case, emit Emitter) {
 	x := isoExtraOf(c)
+	isoOrigin = x.Origin
 	names, progs := isoPrograms(c.Steps)
 	emit(Ev{"ev": "reset", "case": c.ID, "mode": "race", "hooks": isoProbeHooks()})
 	tab := newIsoIntern()
@@ -173,6 +174,7 @@ func runIsoRace(c Case, emit Emitter) {
 // runIsoRaceChild: rounds of free-running goroutines, one per document.
 func runIsoRaceChild(c Case, emit Emitter) {
 	x := isoExtraOf(c)
+	isoOrigin = x.Origin
 	names, progs := isoPrograms(c.Steps)
 	for r := 0; r < x.Rounds; r++ {
 		isoNoSync = true // while the document goroutines run, the harness takes no lock
